@@ -256,6 +256,37 @@ class SymDiGraph:
             self.eattr.pop((s, j), None)
             self.eattr.pop((j, s), None)
 
+    # bulk forms (networkx semantics: remove_*_from silently skip what is not there; add_*_from accept plain items
+    # or (item, attr dict) pairs)
+    def remove_nodes_from(self, nodes):
+        for n in list(nodes):
+            s = self._slot(n)
+            if s is not None and cur().decide(zb(self.alive[s])):
+                self.remove_node(n)
+
+    def remove_edges_from(self, ebunch):
+        for e in list(ebunch):
+            u, v = e[0], e[1]
+            su, sv = self._slot(u), self._slot(v)
+            if su is not None and sv is not None and self._edge_bit(su, sv):
+                self.remove_edge(u, v)
+
+    def add_nodes_from(self, nodes, **attr):
+        for item in list(nodes):
+            if isinstance(item, tuple) and len(item) == 2 and isinstance(item[1], dict):
+                d = dict(attr)
+                d.update(item[1])
+                self.add_node(item[0], **d)
+            else:
+                self.add_node(item, **attr)
+
+    def add_edges_from(self, ebunch, **attr):
+        for e in list(ebunch):
+            d = dict(attr)
+            if len(e) == 3:
+                d.update(e[2])
+            self.add_edge(e[0], e[1], **d)
+
     def remove_edge(self, u, v):
         su, sv = self._slot(u), self._slot(v)
         if su is None or sv is None or not self._edge_bit(su, sv):
